@@ -1,8 +1,10 @@
 //! Runtime-monitoring harness for jonhoo/flurry (see /verif/DESIGN.md).
 pub mod api;
+pub mod freerun;
 pub mod hashers;
 pub mod hook;
 pub mod inspect;
+pub mod orch;
 pub mod outcome;
 pub mod seq;
 pub mod serial;
